@@ -394,6 +394,58 @@ def run(ctx):
         ctx.ob("C12.R2d", short(fn), ok, fn.loc,
                "prepare_for_insert must return min(index + count, constructed size): its callers re-use slots below that bound and "
                "construct raw ones from it on")
+    # R2e: when the size is raised by assignment (resize), every slot between the old and the new size is touched: the
+    # re-use loop starts at the old size, the raw-construction loop continues where it ends, up to the assigned value
+    n2e = 0
+    for fn in vfns:
+        if fn.kind in ("ctor", "copy_ctor", "move_ctor", "dtor") or fn.name in ("clear", "swap", "pop_back", "erase"):
+            continue
+        ig = IG(fn, inline=nin)
+        live = ig.live_nodes()
+        evs = [n for n in ig.ev_nodes() if n.id in live]
+        sets = [n for n in evs if n.ev["e"] == "asg" and n.ev.get("op") == "=" and this_field(n.ev.get("lhs"), "_size") and
+                const_val(n.ev.get("rhs")) is None]
+        if not sets:
+            continue
+        # counting loops of this instance: (init rendering, bound rendering, touches a slot)
+        loops = []
+        for bid, b in fn.blocks.items():
+            if b.get("term") not in ("ForStmt", "WhileStmt") or "cond" not in b:
+                continue
+            c = L.cmp_parts(b["cond"])
+            if not c or c[0] != "<":
+                continue
+            iv = strip_cast(c[1])
+            if not (isinstance(iv, dict) and iv.get("k") == "l"):
+                continue
+            hdr = ig.frames[0].block_node.get(bid)
+            if hdr is None or hdr.id not in live:
+                continue
+            init = None
+            for dn, rhs, how in ig.local_defs(ig.frames[0], iv["id"]):
+                if how == "decl" and rhs is not None:
+                    init = pstr(strip_cast(ig.resolve(rhs, ig.frames[0])))
+            body = ig.reach([hdr])
+            touches = any(x.id in body and x.ev["e"] == "call" and x.ev.get("name") in ("reconstruct", "construct") and x.ev.get("args") and
+                          elem(ig.resolve(x.ev["args"][0], x.frame)) is not None and
+                          pstr(strip_cast(elem(ig.resolve(x.ev["args"][0], x.frame))[1])) == pstr(iv) for x in evs)
+            loops.append((init, pstr(strip_cast(ig.resolve(c[2], ig.frames[0]))), touches))
+        for st in sets:
+            n2e += 1
+            target = pstr(strip_cast(ig.resolve(st.ev["rhs"], st.frame)))
+            cur = "this->_size"
+            seen = 0
+            while cur != target and seen < 4:
+                seen += 1
+                nxt = [l for l in loops if l[0] == cur and l[2]]
+                if not nxt:
+                    break
+                cur = nxt[0][1]
+            ctx.ob("C12.R2e", "%s@%s" % (short(fn), st.line), cur == target, st.where,
+                   "the size is raised to '%s' but the slots from the old size are only covered up to '%s' by loops that reconstruct / "
+                   "construct them: the remaining slots become visible with whatever a logically erased element left in them "
+                   "(std::vector::resize value-initialises)" % (target, cur), site=fsite(fn, "growth-coverage"))
+    ctx.floor("C12.R2e", n2e, 6, "size-raising assignments")
     ctx.floor("C12.R2a", n2, 30, "functions that construct into the storage")
     ctx.floor("C12.R2b", n2b, 40, "slot accesses classified against the constructed boundary")
     if unrecognised:
